@@ -1175,6 +1175,9 @@ class Logic:
         cd = self._count_dnf(e, fr, pol)
         if cd is not None:
             return cd
+        cd = self._lensum_dnf(e, fr, pol)
+        if cd is not None:
+            return cd
         shape = self._emptiness_shape(e, fr, pol)
         if shape is not None:
             r = self._empty_comp_dnf(shape[0], fr, shape[1], depth)
@@ -1210,6 +1213,35 @@ class Logic:
             if len(inner) > 1:
                 return inner
         return [e]
+
+    def _lensum_dnf(self, e, fr, pol):
+        """len(A) + len(B) (+ ...) compared with 0: all empty / some not empty"""
+        if not (isinstance(e, ast.Compare) and len(e.ops) == 1):
+            return None
+        op = _CMP[type(e.ops[0])]
+        if op not in ('==', '!=', '<', '<=', '>', '>='):
+            return None
+        try:
+            a = affine(self.canon, e.left, fr) - affine(self.canon, e.comparators[0], fr)
+        except RecursionError:
+            return None
+        if len(a.terms) < 2 or not all(k.startswith('len(') and k.endswith(')') for k in a.terms):
+            return None
+        coefs = set(a.terms.values())
+        if coefs == {-1}:
+            a = a.scale(-1)
+            op = {'<': '>', '<=': '>=', '>': '<', '>=': '<='}.get(op, op)
+        elif coefs != {1}:
+            return None
+        if not pol:
+            op = {'==': '!=', '!=': '==', '<': '>=', '<=': '>', '>': '<=', '>=': '<'}[op]
+        c0 = -a.const            # sum op c0
+        locs = sorted(k[4:-1] for k in a.terms)
+        if (op, c0) in (('==', 0), ('<=', 0), ('<', 1)):
+            return [[Lit('empty(%s)' % x, True) for x in locs]]
+        if (op, c0) in (('!=', 0), ('>', 0), ('>=', 1)):
+            return [[Lit('empty(%s)' % x, False)] for x in locs]
+        return None
 
     def _count_dnf(self, e, fr, pol):
         """comparisons of a count term with the size of its iterable or with 0/1 are quantified
